@@ -3,6 +3,7 @@ package main
 import (
 	"fmt"
 	"go/ast"
+	"go/constant"
 	"go/token"
 	"go/types"
 	"strings"
@@ -159,6 +160,16 @@ func (x *Exec) evalConversion(n *ast.CallExpr, to types.Type, st *State) (Val, *
 			app("sat", n2, "i!v")))
 		return Sc{n2, SStr}, st
 	case kt == kSlice && kf == kStr:
+		if cv, ok := x.constOf(n.Args[0]); ok {
+			// []byte("literal"): explicit elements, literal length
+			lit := constant.StringVal(cv)
+			arr := zeroOf(arrSort(SInt, SInt))
+			for i := 0; i < len(lit); i++ {
+				arr = tSto(arr, tInt(int64(i)), tInt(int64(lit[i])))
+			}
+			et := to.Underlying().(*types.Slice).Elem()
+			return Sl{Sc{arr, arrSort(SInt, SInt)}, "0", tInt(int64(len(lit))), tFalse, et}, st
+		}
 		s := v.(Sc)
 		arr := c.fresh("bytes", arrSort(SInt, SInt))
 		c.assume(tTrue, tForall([][2]string{{"i!v", SInt}},
@@ -386,14 +397,15 @@ func (x *Exec) evalCopy(n *ast.CallExpr, st *State) (Val, *State) {
 func (x *Exec) callYield(n *ast.CallExpr, st *State) (Val, *State) {
 	c := x.c
 	var args []Val
-	for _, a := range n.Args {
+	ysig, _ := x.typeOf(n.Fun).Underlying().(*types.Signature)
+	for i, a := range n.Args {
 		v, s := x.eval(a, st)
 		st = s
+		if ysig != nil && i < ysig.Params().Len() {
+			v = x.convertTo(v, x.typeOf(a), ysig.Params().At(i).Type(), st)
+		}
 		if v == nil {
-			v = c.zeroVal(x.typeOf(a), nil)
-			if v == nil {
-				panic(unsupported("nil yield argument"))
-			}
+			panic(unsupported("nil yield argument"))
 		}
 		args = append(args, v)
 	}
@@ -405,6 +417,7 @@ func (x *Exec) callYield(n *ast.CallExpr, st *State) (Val, *State) {
 	st.ghost["Y"] = ny
 	cont := c.fresh("cont", SBool)
 	st.ghost["stopped"] = scBool(tNot(cont))
+	x.reach(st, n.Pos(), "yield call")
 	return scBool(cont), st
 }
 
@@ -518,7 +531,7 @@ func (x *Exec) callByContract(ct *Contract, callee *types.Func, n *ast.CallExpr,
 	penv := &SpecEnv{x: env.x, st: post, old: pre, names: postNames, oldNames: names, res: resV, lets: ct.Lets}
 	// value parameters denote entry values in ensures: only object params use the post state
 	for k, v := range names {
-		if _, isObj := v.(Obj); !isObj {
+		if !containsObj(v) {
 			if _, mod := ct.Modifies[k]; !mod {
 				penv.names[k] = v
 			}
@@ -538,6 +551,7 @@ func (x *Exec) callByContract(ct *Contract, callee *types.Func, n *ast.CallExpr,
 		c.assume(post.pc, penv.evalBool(en.E))
 	}
 	c.inlined["contract:"+short] = true
+	x.reach(post, n.Pos(), "after call of "+short)
 	if len(res) == 1 {
 		return res[0], post
 	}
